@@ -687,7 +687,7 @@ EXPECT = ["C14.states.every_call_returns_a_state_not_returned_before", "C14.Cant
 
 
 def main(tier):
-    bounds = {"histories_and_variants": 'enumeration driven by the real inversion sampler: uniform law, 2 (quick) / 3 symbolic uniforms, 2-d grids (2,1) [quick], (1,2), (3,1), 1-d (2,3)',
+    bounds = {"histories_and_variants": 'enumeration driven by the real inversion sampler: uniform law, 2 (quick) / 3 symbolic uniforms, 2-d grids (2,1) [quick], (1,2), (3,1), 1-d (2,3); PairingToZ1d also with its zero kept',
               "quick": "Szudzik and Rosenberg-Strong 2-d: all naturals (no bound); Cantor x,y <= 16, z <= 256 (one path per integer root); Pepis-Kalmar x <= 2^8, "
                        "y <= 6, z <= 2^8; Rosenberg-Strong 3-d coordinates <= 6, z < 7^3 and the windows around 5773^3 and 5774^3; PairingToZd 2-d unbounded, "
                        "3-d coordinates <= 3; PairingToZ1d intervals up to [-3,3], call orders of length 2; lazy product sizes <= 3, d <= 3; "
